@@ -110,6 +110,23 @@ IfaceRenderX(v, num) ==
 IfaceRender(v) == IfaceRenderX(v, FALSE)
 IfaceNumRender(v) == IfaceRenderX(v, TRUE)
 
+\* ---- addressing a target below the root ----
+\* a step is [t |-> "i", i |-> n, key |-> ""] or [t |-> "k", i |-> 0, key |-> k]
+StepI(i) == [t |-> "i", i |-> i, key |-> ""]
+StepK(k) == [t |-> "k", i |-> 0, key |-> k]
+
+Child(v, st) ==   \* position (1-based) of the child a step designates, 0 if none
+  IF st.t = "i" THEN (IF (IsArr(v) \/ IsObj(v)) /\ st.i >= 0 /\ st.i < Len(v.e) THEN st.i + 1 ELSE 0)
+  ELSE (IF IsObj(v) THEN FirstKey(v.e, st.key) ELSE 0)
+
+ChildVal(v, p) == IF IsObj(v) THEN v.e[p].val ELSE v.e[p]
+
+RECURSIVE Resolves(_, _)
+Resolves(v, path) == path = <<>> \/ (Child(v, path[1]) # 0 /\ Resolves(ChildVal(v, Child(v, path[1])), Tail(path)))
+
+RECURSIVE At(_, _)
+At(v, path) == IF path = <<>> THEN v ELSE At(ChildVal(v, Child(v, path[1])), Tail(path))
+
 \* ---- operations ----
 \* op = [o |-> name, i |-> int, j |-> int, key |-> string, v |-> value]
 Op(o, i, j, key, v) == [o |-> o, i |-> i, j |-> j, key |-> key, v |-> v]
@@ -173,23 +190,36 @@ Apply(t, op) ==
     [] op.o = "Marshal"   -> Res(t, Render(t))
     [] op.o = "Iterate"   -> Res(t, Listing(t))
     [] op.o = "Interface" -> Res(t, IfaceRender(t))
-
-\* ---- addressing a target below the root ----
-\* a step is [t |-> "i", i |-> n, key |-> ""] or [t |-> "k", i |-> 0, key |-> k]
-StepI(i) == [t |-> "i", i |-> i, key |-> ""]
-StepK(k) == [t |-> "k", i |-> 0, key |-> k]
-
-Child(v, st) ==   \* position (1-based) of the child a step designates, 0 if none
-  IF st.t = "i" THEN (IF (IsArr(v) \/ IsObj(v)) /\ st.i >= 0 /\ st.i < Len(v.e) THEN st.i + 1 ELSE 0)
-  ELSE (IF IsObj(v) THEN FirstKey(v.e, st.key) ELSE 0)
-
-ChildVal(v, p) == IF IsObj(v) THEN v.e[p].val ELSE v.e[p]
-
-RECURSIVE Resolves(_, _)
-Resolves(v, path) == path = <<>> \/ (Child(v, path[1]) # 0 /\ Resolves(ChildVal(v, Child(v, path[1])), Tail(path)))
-
-RECURSIVE At(_, _)
-At(v, path) == IF path = <<>> THEN v ELSE At(ChildVal(v, Child(v, path[1])), Tail(path))
+    \* ---- further read-only views (none changes the tree) ----
+    \* the iterator objects (Values / Properties driven by HasNext + Next): the children in order, each exactly once,
+    \* HasNext true exactly while one is left
+    [] op.o = "Values"     -> Res(t, IF IsArr(t) THEN Listing(t) ELSE "ANYERR")
+    [] op.o = "Properties" -> Res(t, IF IsObj(t) THEN Listing(t) ELSE "ANYERR")
+    \* IndexPair(i): the i-th member (key and value) of an object, nothing otherwise
+    [] op.o = "IndexPair" ->
+         Res(t, IF IsObj(t) /\ op.i >= 0 /\ op.i < n THEN "\"" \o t.e[op.i + 1].key \o "\":" \o Render(t.e[op.i + 1].val) ELSE "NX")
+    \* IndexOrGetWithIdx(i, key): IndexOrGet and the position of the member it returned (-1: none)
+    [] op.o = "IndexOrGetWithIdx" ->
+         Res(t, IF ~IsObj(t) THEN "ANYERR"
+                ELSE IF op.i >= 0 /\ op.i < n /\ t.e[op.i + 1].key = op.key THEN Render(t.e[op.i + 1].val) \o "@" \o ToString(op.i)
+                ELSE LET p == FirstKey(t.e, op.key) IN IF p = 0 THEN "NX@-1" ELSE Render(t.e[p].val) \o "@" \o ToString(p - 1))
+    \* the children handed out as Go containers of nodes: i = 0 InterfaceUseNode, 1 MapUseNode, 2 ArrayUseNode
+    \* (a map keeps the last of duplicated keys and has no order: printed with sorted keys; the values keep theirs)
+    [] op.o = "UseNode" ->
+         Res(t, IF IsArr(t) /\ op.i \in {0, 2} THEN Render(t)
+                ELSE IF IsObj(t) /\ op.i \in {0, 1}
+                     THEN (LET d == DedupLast(t.e) IN Render(Obj(SortPairs([i \in 1..Len(d) |-> d[i].p]))))
+                ELSE IF op.i = 0 THEN Render(t) ELSE "ANYERR")
+    \* GetByPath with one or two steps: j = 0 <<i>>, 1 <<key>>, 2 <<key, i>>, 3 <<i, key>>
+    [] op.o = "GetByPath" ->
+         LET path == CASE op.j = 0 -> <<StepI(op.i)>> [] op.j = 1 -> <<StepK(op.key)>>
+                       [] op.j = 2 -> <<StepK(op.key), StepI(op.i)>> [] OTHER -> <<StepI(op.i), StepK(op.key)>>
+         IN Res(t, IF Resolves(t, path) THEN Render(At(t, path)) ELSE "ANYERR")
+    \* Cap: defined (without an error) exactly for containers and null; the number itself is allocation, not tree
+    \* (a node not yet parsed to its end has room for what it has parsed only)
+    [] op.o = "Cap" -> Res(t, IF t.k \in {"arr", "obj", "null"} THEN "OK" ELSE "ANYERR")
+    \* Raw: the text of the value (compared as JSON: blanks of the source do not count)
+    [] op.o = "Raw" -> Res(t, Render(t))
 
 RECURSIVE Put(_, _, _)
 Put(v, path, nv) ==
